@@ -14,6 +14,7 @@ from __future__ import annotations
 import ast
 
 from ..flow import PathEnum, cond_facts
+from ..fold import try_fold
 from ..model import AnalysisError, Func, Repo, dotted, is_name, norm, walk_shallow
 from ..report import Ledger
 from ..sym import Lin, State, Sym, SymExec, as_lin, NotNumeric
